@@ -232,8 +232,6 @@ def check_property(prop, tier='quick', only=None, verbose=True):
                                  verif=VERIF, timeout=tmo, path_timeout=120,
                                  pres=rb + excl))
             fids = list(h.get('fidelity', []))
-            if tier == 'quick':
-                fids = fids[:h.get('fidelity_quick', 3)]
             for fi, vec in enumerate(fids):
                 jid = '%s_fid%d' % (h['name'], fi)
                 pins = ' and '.join('%s == %r' % (n, vec[n]) for n, _t in h['params'])
@@ -393,8 +391,11 @@ def check_property(prop, tier='quick', only=None, verbose=True):
             ev['coverage'].update(extra(tier) or {})
         except Exception as e:  # noqa
             errors.append('extra_evidence failed: %r' % e)
-    os.makedirs(os.path.join(OUT, 'evidence'), exist_ok=True)
-    json.dump(ev, open(os.path.join(OUT, 'evidence', prop + '.json'), 'w'), indent=1, default=str)
+    # quick tier -> evidence/<id>.json (the file MANIFEST names; what a fresh run of the quick command rewrites);
+    # thorough tier -> evidence/thorough/<id>.json
+    evdir = os.path.join(OUT, 'evidence') if tier == 'quick' else os.path.join(OUT, 'evidence', 'thorough')
+    os.makedirs(evdir, exist_ok=True)
+    json.dump(ev, open(os.path.join(evdir, prop + '.json'), 'w'), indent=1, default=str)
 
     for ln in kf_lines:
         print(ln)
